@@ -426,6 +426,9 @@ impl Sim {
                         let q = self.w.simulate(&p.id, offer_coin.clone(), &p.denoms[ai]);
                         let belief_dec = match (belief, &q) {
                             (Some(Belief::Zero), _) => Some(Decimal::zero()),
+                            (Some(Belief::Huge { exp }), _) => Some(Decimal::new(Uint128::new(10u128.pow(18 + (*exp).min(19) as u32)))),
+                            // nothing quoted: a belief around the quote does not exist; take a huge one
+                            (Some(Belief::AroundQuote { .. }), Ok(s)) if s.return_amount.is_zero() => Some(Decimal::new(Uint128::new(10u128.pow(36)))),
                             (Some(Belief::AroundQuote { ppm }), Ok(s)) if !s.return_amount.is_zero() => {
                                 // price = offer / return, scaled
                                 let at = num_bigint::BigUint::from(amount) * num_bigint::BigUint::from(*ppm) * num_bigint::BigUint::from(10u64).pow(12)
@@ -605,14 +608,15 @@ impl Sim {
                 (owner.clone(), Kinded::Advance, Ok(AppResponse::default()))
             }
             POp::Bad(b) => self.bad(b, &pre),
-            POp::SwapExact { user, pool_id, offer_denom, ask_denom, amount } => {
+            POp::SwapExact { user, pool_id, offer_denom, ask_denom, amount, huge_belief } => {
                 let sender = self.user(*user);
                 let offer_coin = coin(*amount, offer_denom);
                 let q = self.w.simulate(pool_id, offer_coin.clone(), ask_denom);
                 quote = Some(Quote::Swap(q));
                 let slip = Some(Decimal::percent(50));
-                let r = self.w.swap(&sender, pool_id, offer_coin.clone(), ask_denom, None, slip, None);
-                (sender, Kinded::Swap { pool: pool_id.clone(), offer: offer_coin, ask: ask_denom.clone(), receiver: None, slip, belief: None }, r)
+                let belief = if *huge_belief { Some(Decimal::new(Uint128::new(10u128.pow(36)))) } else { None };
+                let r = self.w.swap(&sender, pool_id, offer_coin.clone(), ask_denom, belief, slip, None);
+                (sender, Kinded::Swap { pool: pool_id.clone(), offer: offer_coin, ask: ask_denom.clone(), receiver: None, slip, belief }, r)
             }
             POp::RoundTrip { .. } => (owner.clone(), Kinded::Advance, Ok(AppResponse::default())),
             POp::RouteSameDenomHop { user, pool, asset, amt, slip, lead_in } => {
